@@ -56,7 +56,7 @@ def text(s, subs=()):
 class Defective:
     """Builds the request for a carrier state with the given flags (dict name -> z3 Bool or False)."""
 
-    def __init__(self, m, ctx, carrier, flags, date_header=True, key=bytes(32), sig_variant=None):
+    def __init__(self, m, ctx, carrier, flags, date_header=True, key=bytes(32), sig_variant=None, blank_authz=None):
         self.m, self.ctx, self.carrier, self.f = m, ctx, carrier, flags
         self.sig_variant = sig_variant      # None | 'sig-long' | 'sig-short' | 'sig-empty': a presented signature of another length (always wrong)
         f = lambda n: flags.get(n, False)
@@ -156,6 +156,9 @@ class Defective:
         else:   # none
             headers.append(('x-amz-date', date_val))
             wire_q = query
+        if blank_authz is not None:
+            # a present but blank Authorization header is still the header carrier being present
+            headers.append(('authorization', conc_bytes(blank_authz)))
         self.req = Req('GET', path, wire_q, headers, b'', 'bytes')
         # ---- server clock
         delta = z3.If(zb(f('expired')), z3.BitVecVal(1000, 32), z3.If(zb(f('future')), z3.BitVecVal(-1000, 32), z3.BitVecVal(0, 32)))
